@@ -328,7 +328,7 @@ theorem mkITier_ok_of_strict (name : String) (es : List (Iv α)) (lo hi : α) (h
   have hs' := strictIn_strip.2 hs
   obtain ⟨m1, e1⟩ := pyMinList_append_some ((es.map stripIv).map (·.s)) lo
   obtain ⟨m2, e2⟩ := pyMaxList_append_some ((es.map stripIv).map (·.e)) hi
-  refine ⟨⟨name, es.map stripIv, m1, m2⟩, ?_, rfl, rfl⟩
+  refine ⟨⟨name, es.map stripIv, if m2 < m1 then m2 else m1, if m2 < m1 then m1 else m2⟩, ?_, rfl, rfl⟩
   unfold mkITier
   have e0 : es.map (fun iv => { iv with l := pyStrip iv.l }) = es.map stripIv := rfl
   simp only [e0, sortIvs_of_weakWF _ hw hs', Option.toList_some, e1, e2,
